@@ -54,7 +54,7 @@ def run(ctx):
                        "variants x 3 types with fresh random contents (half of them from a 5-value alphabet to force ties); "
                        "distinct = hash of the reference's destination image and call log; N=0 cases are trivial (one hash)")
     req = [("%s<%s>" % (a, t), b, 1) for a in ALGS for t in ("int", "double", "struct") for b in BUCKETS]
-    ctx.run_events(bins["asan"], ctx.n(96, 4000), shards=16, require=req, keymap=keymap, timeout=3600)
+    ctx.run_events(bins["asan"], ctx.n(96, 2000), shards=16, require=req, keymap=keymap, timeout=3600)
     if ctx.thorough:
-        ctx.run_events(bins["O2"], 4000, shards=16, require=[], keymap=keymap, timeout=3600)
+        ctx.run_events(bins["O2"], 2000, shards=16, require=[], keymap=keymap, timeout=3600)
     ctx.cov["sizes_instantiated"] = "0..64 (std::make_integer_sequence<unsigned, 65>)"
